@@ -1,6 +1,6 @@
 ------------------------------ MODULE MCLedger ------------------------------
 (* Bounded scenarios for Ledger.tla: input spaces, emission of behaviours.   *)
-EXTENDS Ledger, Json
+EXTENDS Report, Json
 
 CONSTANT Script, Scenario
 VARIABLE si      \* index of the script slot being filled
@@ -26,7 +26,8 @@ Bare0 == [c |-> "", v |-> DZero]
 \*   [t |-> "decl", choices |-> set of declaration entries, optional |-> BOOLEAN]
 \*   [t |-> "txn", date, first, rest |-> sets of postings, min, max |-> number of postings]
 DeclSlot(ch, opt) == [t |-> "decl", choices |-> ch, optional |-> opt]
-TxnSlot(d, first, others, mn, mx) == [t |-> "txn", date |-> d, first |-> first, rest |-> others, min |-> mn, max |-> mx]
+TxnSlot(d, first, others, mn, mx) == [t |-> "txn", dates |-> {d}, first |-> first, rest |-> others, min |-> mn, max |-> mx]
+TxnSlotD(ds, first, others, mn, mx) == [t |-> "txn", dates |-> ds, first |-> first, rest |-> others, min |-> mn, max |-> mx]
 Fixed(e) == DeclSlot({e}, FALSE)
 
 \* ---------------------------------------------------------------- plain
@@ -87,6 +88,21 @@ ScriptDeducePrec == <<DeclSlot({DeclC("X", <<>>, p) : p \in {0, 1}}, FALSE),
                       TxnSlot(1, DPFirst, {Omit("B"), Reg("A", Q("X", 5, 1))}, 2, 3),
                       TxnSlot(2, DP2, {Omit("E")}, 2, 2)>>
 
+\* ---------------------------------------------------------------- dated histories for the reports (C04)
+\* three transactions, each on any of three dates IN ANY ORDER (files need not be chronological),
+\* with and without a declared precision, a commodity that cancels out, an inferred amount
+DtFirst == {Reg("A", Q("X", 1, 0)), Reg("A", Q("X", -1, 0)), Reg("A", Q("X", 4, 1)), Reg("B", Q("Y", 2, 0)), Reg("A", Q("X", 15, 1))}
+ScriptDates == <<DeclSlot({DeclC("X", <<>>, 0)}, TRUE),
+                 TxnSlotD({1, 2, 3}, DtFirst, {Omit("E")}, 2, 2),
+                 TxnSlotD({1, 2, 3}, DtFirst, {Omit("E"), Omit("B")}, 2, 2),
+                 TxnSlotD({1, 2, 3}, DtFirst, {Omit("E")}, 2, 2)>>
+
+DtFirstT == DtFirst \cup {Reg("A", Q("Y", -2, 0)), RegX("A", Q("X", 2, 0), Rate("Y", 2, 0), NoEx, NoQ), Assign("A", Q("X", 1, 0))}
+ScriptDatesT == <<DeclSlot({DeclC("X", <<>>, 0), DeclC("X", <<>>, 1)}, TRUE),
+                  TxnSlotD({1, 2, 3}, DtFirstT, {Omit("E")}, 2, 2),
+                  TxnSlotD({1, 2, 3}, DtFirstT, {Omit("E"), Omit("B")}, 2, 2),
+                  TxnSlotD({1, 2, 3}, DtFirstT, {Omit("E"), Reg("E", Q("X", -1, 0))}, 2, 2)>>
+
 \* ---------------------------------------------------------------- aliases and declaration order
 AlDecl == {DeclA("A", <<"a">>), DeclA("B", <<"a">>), DeclA("a", <<>>), DeclA("A", <<"B">>),
            DeclC("X", <<"x">>, -1), DeclC("x", <<>>, -1), DeclC("Y", <<"x", "X">>, -1), DeclC("X", <<"x">>, 0)}
@@ -94,6 +110,11 @@ AlPosts == {Reg(a, q) : a \in {"A", "a", "B"}, q \in {Q("X", 1, 0), Q("x", 1, 0)
            \cup {RegX("a", Q("X", 1, 0), NoEx, NoEx, Q("x", 2, 0)), RegX("A", Q("Y", 1, 0), Rate("x", 1, 0), NoEx, NoQ), Omit("B"), Omit("a")}
 ScriptAlias == <<DeclSlot(AlDecl, TRUE), TxnSlot(1, {Reg("a", Q("x", 1, 0)), Reg("A", Q("X", 1, 0))}, {Omit("B")}, 2, 2),
                  DeclSlot(AlDecl, TRUE), DeclSlot(AlDecl, TRUE), TxnSlot(2, AlPosts, AlPosts, 1, 2)>>
+
+AlPostsT == AlPosts \cup {RegX("A", Q("x", 2, 0), Total("Y", 2, 0), NoEx, NoQ), RegX("B", Q("Y", -1, 0), NoEx, Rate("x", 1, 0), NoQ),
+                         Assign("a", Q("x", 3, 0)), Assign("A", Bare0)}
+ScriptAliasT == <<DeclSlot(AlDecl, TRUE), TxnSlot(1, {Reg("a", Q("x", 1, 0)), Reg("A", Q("X", 1, 0))}, {Omit("B")}, 2, 2),
+                  DeclSlot(AlDecl, TRUE), DeclSlot(AlDecl, TRUE), TxnSlot(2, AlPostsT, AlPostsT, 1, 3)>>
 
 \* ================================================================ machinery
 \* shapes excluded from every generator (DESIGN C03): an assignment on the account of an
@@ -113,7 +134,7 @@ MCNext ==
         \/ /\ sl.t = "decl" /\ si' = si + 1
            /\ \E e \in sl.choices : DeclAccount(e) \/ DeclCommodity(e)
         \/ /\ sl.t = "decl" /\ sl.optional /\ si' = si + 1 /\ UNCHANGED vars
-        \/ /\ sl.t = "txn" /\ si' = si + 1 /\ BeginTxn(sl.date)
+        \/ /\ sl.t = "txn" /\ si' = si + 1 /\ \E d \in sl.dates : BeginTxn(d)
   \/ /\ InTxn /\ pi <= Slot.max /\ UNCHANGED si
      /\ \E p \in (IF pi = 1 THEN Slot.first ELSE Slot.rest) : ShapeOK(Append(CurPosts, p)) /\ Post(p)
   \/ /\ InTxn /\ pi > Slot.min /\ UNCHANGED si /\ CommitOrReject
@@ -134,7 +155,18 @@ Expect == [verdict |-> status.s,
            reg |-> [i \in 1..Len(reg) |-> [date |-> reg[i].date,
                      posts |-> [j \in 1..Len(reg[i].posts) |-> [acct |-> reg[i].posts[j].acct, amt |-> reg[i].posts[j].amt,
                                                                   kind |-> reg[i].posts[j].kind]]]],
-           bal |-> bal, prices |-> prices, lenient |-> ghost.lenient, prec |-> prec, deferred |-> ghost.deferred]
+           bal |-> bal, prices |-> prices, lenient |-> ghost.lenient, prec |-> prec, deferred |-> ghost.deferred,
+           acct |-> acct, cmdt |-> cmdt]
+
+\* expected reports for every date range, for the replay of C04
+\* (the unbounded query is the whole-history report, compared separately: it is shown unrounded)
+RangePairs == {p \in QueryDates \X QueryDates : ~(p[1] = NoBound /\ p[2] = NoBound)}
+ExpectRanges == [verdict |-> status.s, bal |-> bal, prec |-> prec,
+                 accounts |-> AccountsOfReg,
+                 ranges |-> {[s |-> p[1], e |-> p[2], bal |-> [a \in AccountsOfReg |-> BalanceRange(a, p[1], p[2])]] : p \in RangePairs},
+                 register |-> [a \in AccountsOfReg |-> RegisterOf(Flat(reg), a)]]
+EmitRanges == (status.s = "ok") =>
+          PrintT(<<"REPLAY", ToJson([module |-> "Report", scenario |-> Scenario, input |-> input, expect |-> ExpectRanges])>>)
 
 Emit == (Done /\ ~PermittedOnly /\ Relevant) =>
           PrintT(<<"REPLAY", ToJson([module |-> "Ledger", scenario |-> Scenario, input |-> input, expect |-> Expect])>>)
